@@ -680,6 +680,7 @@ type explorer struct {
 	out    []*Path
 	ids    map[ssa.Instruction]string
 	budget int
+	work   *int
 }
 
 // Analyze explores fn from init (a state with one root frame prepared by
@@ -699,6 +700,7 @@ func Analyze(fn *ssa.Function, init *State, opt *Options) *Analysis {
 		opt.MaxPaths = 20000
 	}
 	ids := map[ssa.Instruction]string{}
+	workLeft := 3000000
 	work := []*ssa.BasicBlock{nil}
 	an.Start[nil] = init
 	iter := 0
@@ -710,7 +712,7 @@ func Analyze(fn *ssa.Function, init *State, opt *Options) *Analysis {
 		}
 		c := work[0]
 		work = work[1:]
-		ex := &explorer{an: an, opt: opt, isHdr: isHdr, from: c, ids: ids, budget: opt.MaxPaths}
+		ex := &explorer{an: an, opt: opt, isHdr: isHdr, from: c, ids: ids, budget: opt.MaxPaths, work: &workLeft}
 		st := an.Start[c].Clone()
 		st.steps = nil
 		if c == nil {
@@ -1123,6 +1125,14 @@ func (ex *explorer) run(st *State, blk *ssa.BasicBlock, idx int, prev *ssa.Basic
 	for {
 		if ex.budget <= 0 {
 			ex.problem("path budget exhausted in %s", FuncName(ex.an.Fn))
+			return
+		}
+		// every interpreted instruction costs one unit of work: deep self-nesting with a branch per level must end in
+		// a reported problem, not in an exhausted machine
+		*ex.work--
+		if *ex.work <= 0 {
+			ex.budget = 0
+			ex.problem("work budget exhausted in %s", FuncName(ex.an.Fn))
 			return
 		}
 		f := st.top()
